@@ -31,6 +31,7 @@ pub fn shared(prop: &'static str, seed: u64) -> Vec<Scenario> {
             add(Tier::Quick, format!("liq.{}.{}", rn, p.tag()), d_liq, 400, 150, Box::new(t_liq(pc.clone(), ru)));
             add(Tier::Quick, format!("liq.{}.{}", rn, pc.clone().partial().tag()), d_liq, 600, 150, Box::new(t_liq(pc.clone().partial(), ru)));
         }
+        add(Tier::Quick, format!("liq.profitable-but-funding-debt.{}", p.tag()), d_liq, 600, 150, Box::new(t_liq_profitable(pc.clone())));
         // thorough
         add(Tier::Thorough, format!("close.with.{}", p.tag()), d_close, 300, 300, Box::new(t_close(pc.clone(), true)));
         add(Tier::Thorough, format!("close.sym.{}", p.tag()), d_close, 600, 600, Box::new(t_close(p.clone(), false)));
@@ -170,6 +171,7 @@ pub fn liq(prop: &'static str, seed: u64) -> Vec<Scenario> {
         add(Tier::Quick, format!("shallow.{}", pc.clone().fees().tag()), d, 600, 150, Box::new(t_liq(pc.clone().fees(), 5)));
         add(Tier::Quick, format!("shallow.{}", pc.clone().native().partial().tag()), d, 600, 150, Box::new(t_liq(pc.clone().native().partial(), 5)));
         add(Tier::Quick, format!("deep.{}", pc.clone().native().tag()), d, 600, 150, Box::new(t_liq(pc.clone().native(), 45)));
+        add(Tier::Quick, format!("profitable-but-funding-debt.{}", pc.tag()), d, 600, 150, Box::new(t_liq_profitable(pc.clone())));
         add(Tier::Quick, format!("prepaid-bad-debt.{}", pc.tag()), d, 600, 150, Box::new(t_liq_prepaid(pc.clone())));
         add(Tier::Quick, format!("prepaid-bad-debt.{}", pc.clone().native().tag()), d, 600, 150, Box::new(t_liq_prepaid(pc.clone().native())));
         add(Tier::Quick, format!("shallow.{}", pc.clone().real_feed().tag()), d, 600, 150, Box::new(t_liq(pc.clone().real_feed(), 5)));
